@@ -16,12 +16,19 @@ PROP = {'lean_props': ['Comrak.Props.C17'],
                        'cm_end_list_after_empty_item_counterexample'],
  'strength': 'partial: proved are the parser-independent halves of idempotence (pending-newline bookkeeping idempotent and monotone, flush leaves nothing pending, final newline, one spelling per construct) on the writer model that is byte-equal to the real writer; the fixed-point relation itself is false on the pinned tree (Lean witness + listed finding classes) and is decided per input by the search oracle',
  'trusted_base': CM_TB,
- 'assumptions': ['claimed class: documents from the construct grammar and significant-alphabet text, GFM extensions + footnotes in every combination, '
-                 'width 0 or 1..120, ol_width 0..8, list_style, prefer_fenced, smart, front matter; NOT in the class: non-GFM extensions, hardbreaks, '
-                 'relaxed_*, ignore_*, escaped_char_spans, default_info_string, experimental_minimize_commonmark',
-                 'admitted differences: the end-of-list comment, directly nested strong (gfm_quirks comparison), soft-break placement inside headings '
-                 'and, when width > 0, re-flow of soft breaks and space runs in text',
-                 'parser panics are counted as skipped (they are C01\'s subject)'],
+ 'assumptions': ['claimed class of the two round-trip oracles (S): documents built from the standard constructs (paragraphs, ATX/setext headings, thematic breaks, '
+                 'fenced/indented code, block quotes, bullet/ordered lists tight/loose, task items, HTML blocks, tables, one referenced footnote; emphasis/strong, '
+                 'code spans, links, images, angle autolinks, hard breaks, entities, backslash escapes, strikethrough; text over every Markdown-significant '
+                 'character) and the canonical documents of the C03 model, x GFM extensions + footnotes in every combination x list_style x prefer_fenced, with '
+                 'width = 0, ol_width = 0, smart off',
+                 'NOT in the S class (stated restrictions): width > 0 (re-flow moves block markers to line starts and breaks table rows/code spans - covered by '
+                 'K only), ol_width > 0 (padded markers shift item content), smart, text that looks like an extended autolink (www., scheme://, @), `^` `$` `;` '
+                 'as free text tokens, block quotes inside list items, task items not starting with a paragraph, emphasis adjacent to other inline syntax '
+                 'without a space (except the generated direct nestings), non-GFM extensions, hardbreaks, relaxed_*, ignore_*, escaped_char_spans, '
+                 'default_info_string, experimental_minimize_commonmark, palette/byte-soup inputs',
+                 'admitted differences: the end-of-list comment, directly nested strong (gfm_quirks comparison), soft-break placement inside headings',
+                 'a failure is counted under a listed mechanism only if removing that mechanism\'s trigger from the parsed tree makes the clause pass '
+                 '(counterfactual attribution); parser panics are skipped (C01\'s subject)'],
  'timeout_quick': 900,
  'timeout_thorough': 3000}
 
